@@ -315,6 +315,24 @@ def simple_text(param: str, layer: int, proto: Optional[str], pidx: int) -> str:
     return v
 
 
+def make_instance(li: int, param: str, proto: Optional[str], mode: int = 0, variant: str = "flat",
+                  generation: int = 0) -> Dict[str, Any]:
+    """One COMPARAM-REF of layer li.  generation > 0: a replacement written later (other marker, other values)."""
+    pidx = ALL.index(param)
+    vl = li + 5 * generation  # values as if the instance belonged to a layer that does not exist
+    inst: Dict[str, Any] = {"layer": li, "param": param, "proto": proto,
+                            "tag": f"i{li}.{pidx}.{proto or 'G'}" + ("" if not generation else f".r{generation}")}
+    if mode & M_STACK:
+        inst["pstack"] = PSTACK
+    if is_complex(param):
+        subs = complex_subs(param, variant)
+        omitted = None if not mode & M_OMIT else (li + PROTOS.index(proto)) % len(subs)
+        inst["subs"] = complex_values(vl, proto, pidx, subs, omitted)
+    else:
+        inst["value"] = None if mode & M_OMIT else simple_text(param, vl, proto, pidx)
+    return inst
+
+
 def make_instances(placement: Sequence[Sequence[Tuple[Optional[str], int]]], params: Sequence[str],
                    pfirst: bool = False, placement2: Optional[Sequence[Sequence[Tuple[Optional[str], int]]]] = None,
                    params2: Optional[Sequence[str]] = None, variant: str = "flat") -> List[List[Dict[str, Any]]]:
@@ -331,17 +349,7 @@ def make_instances(placement: Sequence[Sequence[Tuple[Optional[str], int]]], par
             pl = placement2[li] if second else placement[li]  # type: ignore[index]
             pl = sorted(pl, key=lambda pm: (pm[0] is None) if pfirst else (pm[0] is not None))
             for proto, mode in pl:
-                inst: Dict[str, Any] = {"layer": li, "param": param, "proto": proto,
-                                        "tag": f"i{li}.{pidx}.{proto or 'G'}"}
-                if mode & M_STACK:
-                    inst["pstack"] = PSTACK
-                if is_complex(param):
-                    subs = complex_subs(param, variant)
-                    omitted = None if not mode & M_OMIT else (li + PROTOS.index(proto)) % len(subs)
-                    inst["subs"] = complex_values(li, proto, pidx, subs, omitted)
-                else:
-                    inst["value"] = None if mode & M_OMIT else simple_text(param, li, proto, pidx)
-                insts.append(inst)
+                insts.append(make_instance(li, param, proto, mode, variant))
         out.append(insts)
     return out
 
